@@ -55,6 +55,7 @@ type cfgSpec struct {
 	bes        []beSpec
 	method     string
 	concurrent int
+	sequential bool // proxy extra_config "sequential": true (sequential merge)
 }
 
 type reqSpec struct {
@@ -157,6 +158,9 @@ func buildRunner(cs cfgSpec) *runner {
 		HeadersToPass:   cp(cs.epH),
 		QueryString:     cp(cs.epQ),
 		ConcurrentCalls: cs.concurrent,
+	}
+	if cs.sequential {
+		ep.ExtraConfig = config.ExtraConfig{proxy.Namespace: map[string]interface{}{"sequential": true}}
 	}
 	for i, b := range cs.bes {
 		pat := fmt.Sprintf("/b%d", i)
@@ -424,21 +428,45 @@ func (g *gen) run(stream string, cs cfgSpec, reqs []reqSpec) {
 	if cs.method == "" {
 		cs.method = "GET"
 	}
-	rn := buildRunner(cs)
-	for _, rq := range reqs {
+	norm := make([]reqSpec, len(reqs))
+	for i, rq := range reqs {
 		if rq.host == "" {
 			rq.host = "gw.example"
 		}
-		lines := rq.lines
 		if rq.body != "" {
-			lines = append(append([][2]string{}, lines...), [2]string{"Content-Length", fmt.Sprint(len(rq.body))})
-			rq.lines = lines
+			rq.lines = append(append([][2]string{}, rq.lines...), [2]string{"Content-Length", fmt.Sprint(len(rq.body))})
 		}
-		obs, status := rn.serve(cs, rq)
-		for _, o := range obs {
-			g.emit(stream, cs, rq, o, status)
+		norm[i] = rq
+	}
+	// endpoints whose backends run concurrently (several backends, concurrent_calls) are driven in
+	// a child process: a fatal runtime error of the code under test (concurrent map access) then
+	// kills the child only and becomes failing cases carrying the crash text
+	var results []served
+	if len(cs.bes) > 1 || cs.concurrent > 1 {
+		results = runInChild(cs, norm)
+	} else {
+		results = serveAll(cs, norm)
+	}
+	for i, rq := range norm {
+		for _, o := range results[i].obs {
+			g.emit(stream, cs, rq, o, results[i].status)
 		}
 	}
+}
+
+type served struct {
+	obs    []observation
+	status int
+}
+
+func serveAll(cs cfgSpec, reqs []reqSpec) []served {
+	rn := buildRunner(cs)
+	res := make([]served, len(reqs))
+	for i, rq := range reqs {
+		obs, status := rn.serve(cs, rq)
+		res[i] = served{obs, status}
+	}
+	return res
 }
 
 // emit writes one case: what backend o.be's executor was handed for request rq
@@ -454,20 +482,23 @@ func (g *gen) emit(stream string, cs cfgSpec, rq reqSpec, o observation, status 
 				pairList(parsePairs(b.static)), pairList(rq.lines), pairList(rq.query), emit.Str(rq.host), ip, emit.Str(core.KrakendUserAgent),
 				emit.MultiMap(o.headers), emit.MultiMap(o.query))
 			js := map[string]interface{}{
-				"adapter": cs.adapter, "method": cs.method, "concurrent_calls": cs.concurrent,
+				"adapter": cs.adapter, "method": cs.method, "concurrent_calls": cs.concurrent, "sequential_merge": cs.sequential,
 				"endpoint_input_headers": cs.epH, "endpoint_input_query_strings": cs.epQ,
 				"backend_index": o.be, "backends": len(cs.bes),
 				"backend_input_headers": b.h, "backend_input_query_strings": b.q, "backend_url_pattern_query": b.static,
 				"request":  map[string]interface{}{"header_lines": rq.lines, "raw_query": rawQuery(rq.query), "query_pairs": rq.query, "host": rq.host, "body": rq.body, "remote_addr": remoteIP + ":4711"},
 				"observed": map[string]interface{}{"executor_headers": o.headers, "executor_raw_query": o.rawQuery, "executor_query": o.query, "parse_error": o.parseErr, "client_status": status},
 			}
-			canon := fmt.Sprintf("%s|%s|%d|%q|%q|%d/%d|%q|%q|%q|%q|%q|%q|%q", cs.adapter, cs.method, cs.concurrent, cs.epH, cs.epQ, o.be, len(cs.bes), b.h, b.q, b.static, rq.lines, rq.query, rq.host, rq.body)
+			canon := fmt.Sprintf("%s|%s|%d%v|%q|%q|%d/%d|%q|%q|%q|%q|%q|%q|%q", cs.adapter, cs.method, cs.concurrent, cs.sequential, cs.epH, cs.epQ, o.be, len(cs.bes), b.h, b.q, b.static, rq.lines, rq.query, rq.host, rq.body)
 			nontrivial := len(cs.epH)+len(cs.epQ)+len(b.h)+len(b.q) > 0
 			g.w.Count("stream:" + stream)
 			g.w.Count("adapter:" + cs.adapter)
 			g.w.Count(fmt.Sprintf("backends:%d", len(cs.bes)))
 			if cs.concurrent > 1 {
 				g.w.Count("concurrent_calls>1")
+			}
+			if cs.sequential {
+				g.w.Count("sequential_merge")
 			}
 			g.w.Count("ep_headers:" + listKind(cs.epH))
 			g.w.Count("be_headers:" + listKind(b.h))
@@ -519,6 +550,10 @@ func main() {
 		concChild(cfg.Extra, realStdout)
 		return
 	}
+	if cfg.Extra == "run-child" {
+		runChild(os.Stdin, realStdout)
+		return
+	}
 	r := rng.New(cfg.Seed)
 	w := out.NewWriter(cfg, "Verif.Corr.C08", 500)
 	g := &gen{w: w, cfg: cfg}
@@ -530,9 +565,10 @@ func main() {
 	canonCases(g, r)
 	reuseConcurrent(g) // last: the only stream whose case order is not needed by a deterministic replay
 
+	w.Meta["child_processes_died"] = childCrashes
 	w.Close("one case per call of a backend's HTTPRequestExecutor (header map + parsed URL query), requests read by net/http from wire bytes and served by the real router of each adapter over config.Init-ed endpoints and proxy.NewDefaultFactory; "+
 		"instance reuse: ONE router+stack per configuration serving telling sequences of 5-6 different requests (stream reuse-seq, deterministic) and hit from 8 goroutines over 12 distinct requests (stream reuse-conc, each distinct request/observation pair once); "+
 		"corpus (section-8 defects, wildcard positions, gateway-owned names, literal * in backend lists); exhaustive: endpoint list x backend list over {A,B,*,\"\" (empty name)} up to length 2 (21x21; lists with the empty name x 5 of the 8 subsets, with the empty-named parameter ?=v), used for headers and query at once, x client sending every subset of {A,B,C} (adapter rotating; thorough: every adapter, and lists up to length 3 over {A,B} with duplicates x backend lists); "+
-		"random: lists up to 6 (mixed case, duplicates, wildcard), 0-7 header lines, 0-6 query pairs with repeated/empty/reserved values, static url_pattern queries, 1-2 backends, concurrent_calls 1-3, GET/POST; "+
+		"random: lists up to 6 (mixed case, duplicates, wildcard), 0-7 header lines, 0-6 query pairs with repeated/empty/reserved values, static url_pattern queries, 1-3 backends with parallel or sequential merge, concurrent_calls 1-3, GET/POST (endpoints with several backends or concurrent calls run in child processes; a dead child becomes failing cases with the crash text); "+
 		"plus textproto.CanonicalMIMEHeaderKey on every single byte, every string up to 3 over a 9-symbol alphabet and random names; nontrivial = some list declared", true)
 }
